@@ -21,6 +21,7 @@ import ClarabelProofs.Lemmas.InfoConeScale
 import ClarabelProofs.Lemmas.InfoConesAll
 import ClarabelProofs.Lemmas.InfoPresolveUser
 import ClarabelProofs.Props.C09
+import ClarabelProofs.Props.C01Full
 
 namespace Clarabel.C01
 open Clarabel.Dense Clarabel.Info Finset
